@@ -4,19 +4,29 @@
 
   A function is a list of program points (`Node`): the pending POSIX call and, for (did the call succeed?, value of the
   `signaled` flag seen by the library code that runs after the call), an `Edge`: the flag store that code performs (if
-  any) and where it ends — at the next POSIX call (`Next.node`) or with a return (`Next.ret`, `none` = void).  No edge =
+  any) and where it ends — at the next POSIX call (`Next.node`) or with a return (`Next.ret`).  For Thread the handle
+  `thread` (attached or not) plays the role of the flag.  No edge =
   a `VERIFY(...)` on the call's result fails there (the library traps; the model assumes those calls succeed).
 -/
 namespace Nstd.Sync.Cfg
 
 inductive PCall | mutexLock | mutexTryLock | mutexUnlock | condWait | condTimedWait | condSignal | condBroadcast
+  | threadCreate | threadJoin
 deriving DecidableEq, Repr
 
-inductive Next | node (n : Nat) | ret (v : Option Bool)
+/-- what a member function returns: nothing, a bool, the literal 0 (`Thread::join` without a handle), or the value handed
+    over by `pthread_join` -/
+inductive RetV | void | bool (b : Bool) | zero | joined
 deriving DecidableEq, Repr
 
+inductive Next | node (n : Nat) | ret (v : RetV)
+deriving DecidableEq, Repr
+
+/-- `store`: the store to the flag (`signaled`; for Thread: the handle `thread` becomes set / clear); `func`: the functor of
+    `Thread::start(obj, member)` is stored on the way -/
 structure Edge where
   store : Option Bool
+  func : Bool
   next : Next
 deriving DecidableEq, Repr
 
